@@ -1156,3 +1156,55 @@ def rf137(run):
     if n < 5:
         raise F.AnalysisBroken('RF137: only %d functions with deleting calls' % n)
     return n
+
+
+# ---------------------------------------------------------------------------------------------
+# RF152: a module moved to another context takes all its names along
+# ---------------------------------------------------------------------------------------------
+
+def rf152(run):
+    rule = 'RF152'
+    run.rule(rule, 'MIR_change_module_ctx re-interns the strings of a module in the new context, because MIR_finish of the old context frees '
+                   'its string table.  Every field of MIR_func and MIR_proto that holds a vector of named variables (type VARR (MIR_var_t) *, '
+                   'taken from the struct declarations) is handed to change_var_names — in the function itself or in a helper it calls — '
+                   'so vars, global_vars and prototype args all follow the module')
+    tu = run.tu('mir')
+    f = tu.func('MIR_change_module_ctx')
+    run.functions_analysed.add(('mir', f.name))
+    want = []
+    for rec in ('MIR_func', 'MIR_proto'):
+        r = tu.records.get(rec)
+        if r is None:
+            raise F.AnalysisBroken('RF152: struct %s not found' % rec)
+        for fld in r['fields']:
+            if 'VARR_MIR_var_t' in tu.types[fld['t']].s or 'MIR_var_t' in tu.types[fld['t']].s and 'VARR' in tu.types[fld['t']].s:
+                want.append((rec, fld['n']))
+    if len(want) < 3:
+        raise F.AnalysisBroken('RF152: only %d variable vectors found in MIR_func / MIR_proto' % len(want))
+    scope = [f] + [tu.funcs[c] for c in tu.callgraph().get(f.name, ()) if c in tu.funcs and tu.funcs[c].body is not None and c != 'change_var_names']
+    passed = set()
+    for g in scope:
+        # fields passed (directly or through a local / a returned value of a helper) to change_var_names, or returned by a helper
+        for x in g.walk():
+            if x['k'] == 'MemberExpr' and x['n'] in {n_ for _, n_ in want}:
+                p_ = g.parent_of(x)
+                up = x
+                direct = False
+                while p_ is not None and (p_['k'] in F.CASTS or p_['k'] == 'ParenExpr'):
+                    up, p_ = p_, g.parent_of(p_)
+                if p_ is not None and p_['k'] == 'CallExpr' and p_.get('callee') == 'change_var_names':
+                    direct = True
+                if p_ is not None and p_['k'] == 'ReturnStmt' and g is not f:
+                    direct = True      # a selector helper whose result the caller passes on
+                if direct:
+                    passed.add(x['n'])
+    n = 0
+    for rec, fld in want:
+        ok = fld in passed
+        n += 1
+        run.ob(rule, (rec, fld), ok, {'struct': rec, 'field': fld, 'names moved to the new context': ok})
+        if not ok:
+            run.violation(rule, f, 'names of %s->%s stay in the old context' % (rec, fld), 'MIR_change_module_ctx does not pass %s.%s to change_var_names: '
+                          'the names keep pointing into the string table of the old context, and after MIR_finish (old_ctx) printing, writing or '
+                          'linking the moved module reads freed memory' % (rec, fld), line=f.line)
+    return n
